@@ -67,17 +67,25 @@ deriving DecidableEq, Repr
 
 /-- The two POST helpers (`nsqlookupdPOST`, `producersPOST`) as the extractor sees them: a `for … range`
 over the addresses with exactly one `POSTV1` per pass, no way out of the loop (`break`, `return`, `goto`),
-every error appended, and the `ErrList` returned when there is one. -/
+every error appended, and the `ErrList` returned when there is one; the loop ranges over the *whole* list it was
+given, each pass addresses the element of that pass and hands on the `uri` / `qs` it was given. These facts
+are the static tie of `opReqs` ("one POST per address of the list"); the dynamic one is the `fan` stream. -/
 structure PostLoop where
   perPass : Nat          -- POSTV1 calls per pass
   exits : Nat            -- break / return / goto / continue statements inside the loop
   appendsErr : Bool      -- `if err != nil { errs = append(errs, err) }`
   returnsErrList : Bool  -- `if len(errs) > 0 { return ErrList(errs) }`
   endpoint : String      -- format of the endpoint
+  ranges : String        -- what the loop ranges over: "param0" = the whole address list it was given
+                         -- (`addrs[:1]`, another variable, an index loop show up as their text)
+  target : String        -- first argument of the endpoint format: "elem" = the loop variable,
+                         -- "elem.HTTPAddress()" = its address
+  passesUriQs : Bool     -- the other two arguments are the `uri` and `qs` parameters, in this order
 deriving DecidableEq, Repr
 
 def PostLoop.good (l : PostLoop) : Bool :=
-  l.perPass == 1 && l.exits == 0 && l.appendsErr && l.returnsErrList && l.endpoint == "http://%s/%s?%s"
+  l.perPass == 1 && l.exits == 0 && l.appendsErr && l.returnsErrList && l.endpoint == "http://%s/%s?%s" &&
+  l.ranges == "param0" && (l.target == "elem" || l.target == "elem.HTTPAddress()") && l.passesUriQs
 
 /-! ### Requests -/
 
@@ -132,14 +140,14 @@ def nsqdTopicProducers (w : World) (a : Action) : LookupRes :=
       (if nodeHasTopic w n then [(⟨false, .nsqd, n, "/info", ""⟩ : PReq)] else []))
   { reqs := reqs,
     allFailed := failCount w reqs == w.nsqdAddrs.length,
-    producers := w.nsqdAddrs.filter (nodeHasTopic w) }
+    producers := (w.nsqdAddrs.filter (nodeHasTopic w)).map (reportOf w) }
 
 def nsqdProducersOfNode (w : World) (a : Action) : LookupRes :=
   let reqs := (⟨false, .nsqd, a.node, "/info", ""⟩ : PReq) ::
     (if nodeUp w a.node then [(⟨false, .nsqd, a.node, "/stats", "format=json&include_clients=false"⟩ : PReq)] else [])
   { reqs := reqs,
     allFailed := failCount w reqs == 1,
-    producers := if nodeUp w a.node then [a.node] else [] }
+    producers := if nodeUp w a.node then [reportOf w a.node] else [] }
 
 def doLookup (w : World) (a : Action) : Lookup → LookupRes
   | .topicProducers => if !w.lookupds.isEmpty then lookupdTopicProducers w a else nsqdTopicProducers w a
